@@ -358,8 +358,12 @@ def check_r2(prop, tier, seed, spec):
         if ml:
             lb, c1, c2 = map(int, ml.groups())
             path_cov.update(limb_divisions_evaluated=lb, with_first_2by1_correction=c1, with_second_2by1_correction=c2)
+        mt = re.search(r'<<"TOPONLY", (\d+)>>', out)
+        if mt:
+            path_cov.update(add_back_visible_in_top_limb_only=int(mt.group(1)))
         log("[%s] path labels at W=64: %d recorded divisions re-evaluated by the KnuthD model, %d take add-back, %d have a maxed estimate, %d a 3-by-2 correction, %d SPEC-DRIFT" % (prop, ev_, ab, qm, co, drift)
-            + ("; %d limb divisions: %d with a first, %d with the second 2-by-1 correction" % (lb, c1, c2) if ml else ""))
+            + ("; %d limb divisions: %d with a first, %d with the second 2-by-1 correction" % (lb, c1, c2) if ml else "")
+            + ("; %s add-backs visible in the top limb only" % mt.group(1) if mt else ""))
         g, d_ = parse_states(out)
         totals["states"] += d_; totals["transitions"] += g
     for rspec, fut in r1_futs:
